@@ -12,11 +12,11 @@ for id in "$@"; do
   {
     echo "== $(date -u +%FT%TZ) confirm $id on /repo $(git -C /repo rev-parse --short HEAD)"
     CARGO_TARGET_DIR=$TD cargo build --offline -j 6 -q 2>/dev/null && cp $TD/debug/cicada /tmp/confirm-cicada-orig && echo "unchanged: build ok"
-    if [ -f $S/demo.sh ]; then timeout 300 bash $S/demo.sh /tmp/confirm-cicada-orig >/dev/null 2>&1 < /dev/null; echo "demo on unchanged binary: exit $?"; fi
+    if [ -f $S/demo.sh ]; then (cd $S && timeout 300 bash ./demo.sh /tmp/confirm-cicada-orig) >/dev/null 2>&1 < /dev/null; echo "demo on unchanged binary: exit $?"; fi
     git apply $S/patch.diff && echo "patch applies"
     CARGO_TARGET_DIR=$TD cargo build --offline -j 6 -q 2>/dev/null && echo "changed: build ok"
     CARGO_TARGET_DIR=$TD cargo test --workspace --offline -j 6 2>&1 < /dev/null | grep -E "^test result|FAILED|failed" | tr '\n' ' '; echo
-    if [ -f $S/demo.sh ]; then timeout 300 bash $S/demo.sh $TD/debug/cicada >/dev/null 2>&1 < /dev/null; echo "demo on changed binary: exit $?"; fi
+    if [ -f $S/demo.sh ]; then (cd $S && timeout 300 bash ./demo.sh $TD/debug/cicada) >/dev/null 2>&1 < /dev/null; echo "demo on changed binary: exit $?"; fi
   } >> $S/confirm.txt 2>&1
   cd /
   git -C /repo worktree remove --force $WT
